@@ -255,6 +255,24 @@ func genInfoModel(repo string) (genFile, error) {
 		b.WriteString("\n")
 	}
 	b.WriteString("]\n")
+	// how LoadExtElements builds an entry from a row of the file (the decoder-table theorems assume exactly this)
+	loadEntry := "!unrecognised: LoadExtElements has no single InfoModel[...] = InfoElementEntry{...} assignment"
+	if fd := funcDecl(f, "", "LoadExtElements"); fd != nil {
+		n := 0
+		ast.Inspect(fd.Body, func(x ast.Node) bool {
+			if as, ok := x.(*ast.AssignStmt); ok && len(as.Lhs) == 1 && len(as.Rhs) == 1 {
+				if ix, ok := as.Lhs[0].(*ast.IndexExpr); ok && src(fset, ix.X) == "InfoModel" {
+					n++
+					loadEntry = src(fset, as.Lhs[0]) + " = " + src(fset, as.Rhs[0])
+				}
+			}
+			return true
+		})
+		if n != 1 {
+			loadEntry = fmt.Sprintf("!unrecognised: %d assignments to InfoModel[...] in LoadExtElements", n)
+		}
+	}
+	b.WriteString("\n/-- the one statement of LoadExtElements that fills the model from a row of the file -/\ndef loadExtAssignment : String := " + leanStr(loadEntry) + "\n")
 	b.WriteString(footer("InfoModelTbl"))
 	return genFile{"InfoModelTbl", b.String()}, nil
 }
